@@ -942,7 +942,10 @@ def all_cases(quick):
         first = '/' + own.split('/')[1]
         cases += [{'req': k, 'mut': ('path', p)} for p in (
             '/', '//', '/unknown', first + '/Unknown', own + '/extra', own + '/', own + '?x=1', '?x', '*', first, 'http://10.0.0.1:8000' + own,
-            own.lstrip('/'), own + '/' + 'y' * 3000, '/%2e%2e/%2e%2e/etc/passwd', first + '//Get', own + '#frag')]
+            own.lstrip('/'), own + '/' + 'y' * 3000, '/%2e%2e/%2e%2e/etc/passwd', first + '//Get', own + '#frag',
+            # request targets that urlparse or lxml choke on
+            'http://[/x', 'http://[::1' + own, '//[' + own, own + '\x01', own + '/\x7f\x00', own + '\xff', own + '%00', own + '?\x01',
+            own + '/<&>', own + ';p=1', own.upper())]
     # headers: every header x every hostile value on every request type
     header_reps = [k for k in keys if k.split(':')[-1] in ('GetMdib', 'SetString', 'Subscribe', 'Renew', 'EpisodicMetricReport')]
     for k in (header_reps if quick else keys):
